@@ -78,6 +78,19 @@ RowPred(c, r) == Get(r, c.f) # NULL /\ Get(r, c.f) > c.k           \* where f > 
 IsPerRow(c) == c.op \in {"eval", "fields", "rename", "bin", "makemv"} \/ (c.op = "fillnull" /\ c.fs # {})
 Expand(c, r) == IF Get(r, c.f) = NULL THEN <<r>> ELSE [i \in 1..Len(Digits(r[c.f])) |-> Put(r, c.f, Digits(r[c.f])[i])]
 
+(* head [limit=n] <f > k | f < k> [null=<bool>] [keeplast=<bool>] (headcommand.go processHeadExpr): rows are returned while
+   the expression holds; a null expression value counts as holding iff null=true; the row that ends the run is itself
+   returned iff keeplast=true (and the limit still has room) *)
+HeadCond(c, r) == IF Get(r, c.f) = NULL THEN "null"
+                  ELSE IF (IF c.cmp = "gt" THEN Get(r, c.f) > c.k ELSE Get(r, c.f) < c.k) THEN "true" ELSE "false"
+HeadGoesOn(c, r) == HeadCond(c, r) = "true" \/ (HeadCond(c, r) = "null" /\ c.nul)
+RECURSIVE HeadXFold(_, _, _, _)
+HeadXFold(c, ps, rows, acc) ==      \* the row loop: `row < N && !Done && numRecordsSent < MaxRows`
+   IF rows = <<>> \/ ps.done \/ ps.sent >= c.n THEN [ps |-> ps, out |-> acc]
+   ELSE IF HeadGoesOn(c, Head(rows)) THEN HeadXFold(c, [ps EXCEPT !.sent = @ + 1], Tail(rows), Append(acc, Head(rows)))
+   ELSE IF c.keeplast THEN [ps |-> [sent |-> ps.sent + 1, done |-> TRUE], out |-> Append(acc, Head(rows))]
+   ELSE [ps |-> [ps EXCEPT !.done = TRUE], out |-> acc]
+
 (* sort order of one key: numbers ascending/descending, missing values last in both directions *)
 KeyLess(x, y, asc) == IF x = NULL THEN FALSE ELSE IF y = NULL THEN TRUE ELSE IF asc THEN x < y ELSE x > y
 RowLess(c, r1, r2) == KeyLess(Get(r1, c.f), Get(r2, c.f), c.asc)
@@ -101,6 +114,7 @@ Bottleneck(c) == TwoPass(c) \/ c.op \in {"tail", "sort", "top", "rare", "stats"}
 (* ---------- processor state ---------- *)
 InitPS(c) ==
    CASE c.op = "head" -> [sent |-> 0]
+     [] c.op = "headx" -> [sent |-> 0, done |-> FALSE]
      [] c.op = "tail" -> [buf |-> NIL, eof |-> FALSE]
      [] c.op = "dedup" -> [seen |-> <<>>]                     \* sequence of <<key, count>>
      [] c.op = "sort" -> [acc |-> NIL, final |-> FALSE]
@@ -210,6 +224,11 @@ Process(c, ps, in) ==
           IF in.nil THEN [ps |-> ps, out |-> NIL, eof |-> TRUE]
           ELSE LET o == FirstN(in.rows, c.n - ps.sent)
                IN [ps |-> [sent |-> ps.sent + Len(o)], out |-> Bt(o), eof |-> ps.sent + Len(o) >= c.n]
+     [] c.op = "headx" ->
+          IF in.nil \/ ps.done THEN [ps |-> ps, out |-> NIL, eof |-> TRUE]
+          ELSE LET f == HeadXFold(c, ps, in.rows, <<>>)
+                   d == f.ps.done \/ f.ps.sent = c.n            \* `if p.numRecordsSent == p.options.MaxRows { Done = true }`
+               IN [ps |-> [f.ps EXCEPT !.done = d], out |-> Bt(f.out), eof |-> d]
      [] c.op = "tail" ->
           IF ~in.nil
           THEN LET buf1 == IF ps.buf.nil \/ Len(in.rows) >= c.n THEN Bt(LastN(in.rows, c.n))
@@ -262,6 +281,7 @@ GetFinal(c, ps) == CASE c.op = "tail" -> [exists |-> ps.eof, out |-> ps.buf]
                      [] OTHER -> [exists |-> FALSE, out |-> NIL]
 (* processor.Rewind *)
 RewindPS(c, ps) == CASE c.op = "head" -> [sent |-> 0]
+                     [] c.op = "headx" -> [sent |-> 0, done |-> FALSE]
                      [] c.op = "dedup" -> [seen |-> <<>>]
                      [] c.op = "streamstats" -> InitPS(c)
                      [] c.op = "fillnull" /\ c.fs = {} -> [second |-> TRUE]
@@ -370,8 +390,14 @@ AggRef(c, rows) ==   \* set of admissible result sequences of stats / top / rare
        full == IF c.op = "stats" /\ c.by = "" /\ acc = <<>> THEN {<<AggRow(c, <<GALL, [cnt |-> 0, sum |-> 0]>>)>>}
                ELSE {[i \in 1..Len(s) |-> AggRow(c, s[i])] : s \in {p \in PermSeqs(acc) : AggOrdered(c, p)}}
    IN {FirstN(s, AggLimit(c)) : s \in full}
+HeadXRef(c, rows) ==
+   LET bad == {i \in 1..Len(rows) : ~HeadGoesOn(c, rows[i])}
+       t == IF bad = {} THEN Len(rows) + 1 ELSE CHOOSE m \in bad : \A x \in bad : m <= x
+       run == SubSeq(rows, 1, t - 1)
+   IN FirstN(IF t <= Len(rows) /\ c.keeplast THEN Append(run, rows[t]) ELSE run, c.n)
 Sem(c, rows) ==
    CASE c.op = "head" -> {FirstN(rows, c.n)}
+     [] c.op = "headx" -> {HeadXRef(c, rows)}
      [] c.op = "tail" -> {Reverse(LastN(rows, c.n))}
      [] c.op = "dedup" -> {DedupRef(c, rows)}
      [] c.op = "sort" -> {FirstN(s, SortLimit(c)) : s \in {p \in PermSeqs(rows) : SortedBy(c, p)}}
@@ -400,7 +426,7 @@ SemChain(ch, tb) == SemFrom(ch, 1, {tb})
    (mergeProcessor / fetchFromAnyStream).  The merge itself is not modelled operationally; what TLC checks is that
    the reference semantics - the oracle the harness uses for runs with two upstream streams - does not depend on how
    the rows are distributed over the streams. *)
-InputOrderMatters(c) == c.op \in {"head", "tail", "dedup", "streamstats"}
+InputOrderMatters(c) == c.op \in {"head", "headx", "tail", "dedup", "streamstats"}
 IgnoresInputOrder(c) == c.op \in {"sort", "stats", "top", "rare"}
 RECURSIVE CanSplitFrom(_, _, _)
 CanSplitFrom(ch, i, cs) == IF i > Len(ch) THEN FALSE
